@@ -354,6 +354,19 @@ harness(void)
 	nni_aio_init(&user, NULL, NULL);
 	nni_aio_set_timeout(&user, NNG_DURATION_INFINITE);
 	env_aio_submit(&user);
+#ifdef FAILDEV
+	/* C20: the device object cannot be allocated */
+	env_alloc_fail_at = env_alloc_count;
+	nni_device(&user, &sa, &sb);
+	kquiesce();
+	CHECK(env_alloc_failed, "harness: the allocation was attempted");
+	CHECK(env_aio_completed(&user) == 1 && nni_aio_result(&user) == NNG_ENOMEM, "a device that cannot be allocated fails its aio with NNG_ENOMEM");
+	CHECK(sa.recv_aio == NULL && sb.recv_aio == NULL && sa.holds == 0 && sb.holds == 0 && env_alloc_live == 0, "nothing is started, held or leaked");
+	CHECK(env_locks_held == 0, "no lock held");
+	WITNESS("allocation failure");
+	WITNESS("end");
+	return;
+#endif
 #ifdef BADPAIR
 	/* mismatched protocols / cooked socket: refused with EINVAL, nothing started */
 #if BADPAIR == 1
